@@ -148,6 +148,9 @@ func vfH_upgrade_logic() {
 	if d2 == d1 {
 		d2 = 12 // the same dimension twice is the single-dimension case
 	}
+	if (d1 == 5 && d2 == 6) || (d1 == 6 && d2 == 5) {
+		d2 = 12 // default origin policy and a configured CheckOrigin are alternatives
+	}
 	if d2 != 12 {
 		// two dimensions varied: the valid default key is a fixed one (every key is
 		// covered by the single-dimension tier)
